@@ -380,22 +380,30 @@ class CEvent:
         self.ctl = ctl
         self.flag = False
 
+    def _log(self, what, val=None):
+        me = self.ctl.me()
+        self.ctl.log.append(("EV", me.idx if me is not None else -1, what, val))
+
     def set(self):
         self.flag = True
+        self._log("set")
 
     def clear(self):
         self.flag = False
 
     def is_set(self):
+        self._log("isset", self.flag)
         return self.flag
 
     def wait(self, timeout=None):
         ctl = self.ctl
+        self._log("wait")
         if timeout is None:
             ctl.wait_until(lambda: self.flag)
         else:
             deadline = ctl.clock + max(0.0, float(timeout))
             ctl.wait_until(lambda: self.flag or ctl.clock >= deadline, wake_at=int(-(-deadline // 1)))
+        self._log("waitret", self.flag)
         return self.flag
 
 
